@@ -865,6 +865,12 @@ func (n *IncludeNode) Render(w io.Writer, ctx *RenderContext) error {
 				return fmt.Errorf("cannot use sandboxed include without a security policy")
 			}
 		}
+	} else {
+		// The 'with' variables belong to the included template only: give it a child
+		// context so that they (and its own assignments) never reach the includer
+		includeCtx = ctx.Clone()
+		includeCtx.lastLoadedTemplate = template
+		defer includeCtx.Release()
 	}
 
 	// Pre-evaluate all variables before setting them
